@@ -317,9 +317,10 @@ Definition h_bulk_query (cfg : config) (ds : coll) (ids : list N) : coll * respo
 (* ---------------------------------------------------------------- Search / BulkSearch *)
 Definition sview (r : sreq) : search_req := mkSearchReq (q_vec r) (q_k r) (q_ef r) (q_ns r) (q_filter r).
 (* knn_search_*: dimension, then normalize_query_for_search (tiered_engine.rs), then the cold tier's own
-   normalize_query_if_needed (hnsw_backend.rs).  A query whose squares overflow is scaled to all-zero by the
-   first and refused as "norm is zero" by the second: on the BATCH path that error fails the group (INTERNAL);
-   on the single-Search path the cold-tier error is absorbed (the answer is OK with the hot-tier results).
+   normalize_query_if_needed (hnsw_backend.rs).  A query whose squared norm overflows is refused by the first
+   ("invalid query embedding: norm is not finite", INVALID_ARGUMENT on both paths; /repo 524db30 — before
+   that repair it was scaled to all-zero, the cold tier's "norm is zero" refusal failed the group on the BATCH
+   path and was absorbed on the single-Search path, where it also counted as a cold-tier breaker failure).
    (empty / k are re-checked but cannot fail after the validator.)  None = the engine answers *)
 Definition engine_search_err (cfg : config) (batch : bool) (r : sreq) : option status :=
   if negb (len (q_vec r) =? c_dim cfg) then Some InvalidArgument     (* "dimension mismatch" -> Validation *)
@@ -327,7 +328,7 @@ Definition engine_search_err (cfg : config) (batch : bool) (r : sreq) : option s
        | Euclid => None
        | Cosine => match nsq (q_vec r) with
                    | SqTiny => Some Internal
-                   | SqInf => if batch then Some Internal else None
+                   | SqInf => Some InvalidArgument
                    | _ => None
                    end
        end.
